@@ -376,7 +376,7 @@ def check_convert(ctx: runner.Ctx, case):
 
 
 def explore(ctx: runner.Ctx):
-    ctx.given(st_case(), lambda c: check_case(ctx, c), ctx.budget(4000, 200000))
+    ctx.given(st_case(), lambda c: check_case(ctx, c), ctx.budget(7000, 300000))
 
 
 RULE = ("cases = load (near-valid dump, 0-1 mutations) / dump (canonical value) / collected-extras / convert over generated "
